@@ -97,6 +97,31 @@ def state_line(kind, sv, conv, sweeps, saves):
 
 def do(op: dict) -> str:
     o = op["op"]
+    if o == "prepare_seq":
+        # one BatchProcessor, several prepare_batches calls with inputs of different dtypes / magnitudes: each call must return exactly its own
+        # input rows in order followed by zero padding, in the input's dtype, and un-batching must give the input back
+        from mdpax.utils.batch_processing import BatchProcessor
+        n, maxbs, dev = op["n"], op["maxbs"], op["dev"]
+        bp = BatchProcessor(n_states=n, state_dim=1, max_batch_size=maxbs, pmap_device_count=dev)
+        last = None
+        for k, dt in enumerate(op["order"].split(",")):
+            if dt == "i32":
+                x = (np.arange(1, n + 1, dtype=np.int64) + (2 ** 24 + 1 if k else 0)).astype(np.int32).reshape(n, 1)
+            elif dt == "f32":
+                x = (np.arange(1, n + 1, dtype=np.float32) + np.float32(0.5)).reshape(n, 1)
+            else:
+                x = (np.arange(1, n + 1, dtype=np.float64) + 1.0 / 3.0).reshape(n, 1)
+            r = bp.prepare_batches(jnp.asarray(x))
+            rn = np.asarray(r)
+            flat = rn.reshape(-1, 1)
+            back = np.asarray(bp.unbatch_results(r))
+            if (rn.shape != (bp.n_devices, bp.n_batches, bp.batch_size, 1) or str(rn.dtype) != str(x.dtype) or not np.array_equal(flat[:n], x)
+                    or np.any(flat[n:] != 0) or not np.array_equal(back, x)):
+                return f"lossy call={k} dtype={dt} out_dtype={rn.dtype} first_row_in={x[0, 0]!r} first_row_out={flat[0, 0]!r}"
+            if dt == "i32" and k == 0:
+                last = rn
+        rn = last if last is not None else np.asarray(bp.prepare_batches(jnp.arange(1, n + 1, dtype=jnp.int32).reshape(n, 1)))
+        return "|".join(";".join(",".join("_" if v == 0 else str(int(v) - 1) for v in b.reshape(-1)) for b in d) for d in rn)
     if o == "batch" or o == "prepare" or o == "unbatch":
         from mdpax.utils.batch_processing import BatchProcessor
         n, maxbs, dev = op["n"], op["maxbs"], op["dev"]
